@@ -131,6 +131,22 @@ def check(rep, F, tier, replay=None):
                 o = p_c04._origins_any(org, s[4])
                 if not (any(x.startswith("call:") and x.split("@")[0].endswith("checked_mint_sum") for x in o) or ("arg:4" in o and not any(x.startswith("call:") and "checked_add" in x for x in o))):
                     rep.violation("INT-range", "update_mint_value|store", "MintBuilder::update_mint_value stores an Int payload that is neither the given amount nor the range-checked sum", {"origins": sorted(o)[:10]})
+    # ... and checked_mint_sum really is range-checked: the premise of the audited producer above, re-derived on every run
+    cid = find_fn(rep, F, "MintBuilder::checked_mint_sum")
+    if cid:
+        from ruleutil import gate_min, gate_limit
+        import mustpass as _mp
+        oks = [(bi, kind) for bi, kind, loc in _mp.success_stores(F, cid) if kind == "ok"]
+        if not oks:
+            rep.lost("MintBuilder::checked_mint_sum has no Ok return")
+        for bi, kind in oks:
+            rep.inst("INT-range")
+            lo = gate_min(F, cid, bi)[0]
+            hi = gate_limit(F, cid, bi)[0]
+            if lo is None or hi is None:
+                rep.lost("MintBuilder::checked_mint_sum: the accepted range is not derivable as two constant bounds (lo=%s hi=%s)" % (lo, hi))
+            elif lo < -(1 << 64) or hi > (1 << 64) - 1:
+                rep.violation("INT-range", "MintBuilder::checked_mint_sum|range|%d..%d" % (lo, hi), "MintBuilder::checked_mint_sum returns Ok for sums in %d ..= %d; the range of an Int is -2^64 ..= 2^64 - 1: an accumulated mint amount of %s is stored as an Int that the CBOR writer narrows (2^64 -> 0) instead of being refused with 'Mint amount overflow'" % (lo, hi, "2^64" if hi > (1 << 64) - 1 else "below -2^64"), {})
     # ORDER tables
     order_tables(rep, F)
     # ROUND-prim: a function that promises a rounding mode divides with the primitive of that name (truncating `/` differs from
